@@ -1,5 +1,5 @@
 //@PROBE file=src/distance.rs test=verif_probe_distance_c16 clauses=distance
-//@BOUND every vector length 0..=130 x 3 magnitudes (1e-2, 1, 1e3) of pseudo-random values: packing round trip (values + zero padding to a multiple of 8; by-value and by-reference conversions alike), euclidean / cosine against f64 scalar formulas (1e-4 relative / absolute), symmetry, triangle inequality on triples, cosine range, parallel / opposite / positive scaling; 200 pairs of different lengths (common packed prefix)
+//@BOUND every vector length 0..=130 x 3 magnitudes (1e-2, 1, 1e3) of pseudo-random values, plus close vectors (relative distance 1e-2..1e-4 of the norm, 8 lengths x 3 magnitudes): packing round trip (values + zero padding to a multiple of 8; by-value and by-reference conversions alike), euclidean / cosine against f64 scalar formulas (1e-4 relative / absolute), symmetry, triangle inequality on triples, cosine range, parallel / opposite / positive scaling; 200 pairs of different lengths (common packed prefix)
 #[cfg(test)]
 mod verif_probe_distance_c16 {
     // Bounded stand-in for "packing and the distance functions match the scalar definitions" over all lengths up to 130
@@ -56,6 +56,25 @@ mod verif_probe_distance_c16 {
             if (cosine(&fa, &Feature::from_vec(&an)) as f64 + 1.0).abs() > 1e-4 { failures.push(format!("{}: distance.cosine_opposite_is_minus_one", ctx)); }
             if (cosine(&Feature::from_vec(&a3), &fb) as f64 - s).abs() > 1e-4 { failures.push(format!("{}: distance.cosine_scale_invariant", ctx)); }
         } }
+        // close vectors (the same object on consecutive frames): b = a + rel * delta, c = a + 2 rel * delta; the distance is small relative
+        // to the norms, so a formula that goes through |a|^2 + |b|^2 - 2ab loses it to cancellation
+        for len in [1usize, 2, 7, 8, 9, 16, 33, 128] { for mag in [1.0e-2f32, 1.0, 1.0e3] { for rel in [1.0e-2f32, 1.0e-3, 1.0e-4] {
+            cases += 1; nontrivial += 1;
+            let a: Vec<f32> = (0..len).map(|_| mag * (0.5 + (next() % 1001) as f32 / 2000.0)).collect();
+            let delta: Vec<f32> = (0..len).map(|_| mag * rel * ((next() % 2001) as f32 / 1000.0 - 1.0)).collect();
+            let b: Vec<f32> = a.iter().zip(delta.iter()).map(|(x, d)| x + d).collect();
+            let c: Vec<f32> = a.iter().zip(delta.iter()).map(|(x, d)| x + 2.0 * d).collect();
+            let ctx = format!("PROBE input: close vectors of length {} magnitude {} relative distance {}", len, mag, rel);
+            let (fa, fb, fc) = (Feature::from_vec(&a), Feature::from_vec(&b), Feature::from_vec(&c));
+            for (x, y, fx, fy) in [(&a, &b, &fa, &fb), (&b, &a, &fb, &fa), (&a, &c, &fa, &fc), (&b, &c, &fb, &fc)] {
+                let (d, w) = (euclidean(fx, fy) as f64, eu(x, y));
+                if (d - w).abs() > 1e-3 * w + 1e-30 { failures.push(format!("{}: distance.euclidean_is_the_scalar_formula: {} vs {}", ctx, d, w)); break; }
+            }
+            let (dab, dbc, dac) = (euclidean(&fa, &fb) as f64, euclidean(&fb, &fc) as f64, euclidean(&fa, &fc) as f64);
+            if dac > (dab + dbc) * 1.001 { failures.push(format!("{}: distance.euclidean_triangle_inequality: {} > {} + {}", ctx, dac, dab, dbc)); }
+            let (sc, ws) = (cosine(&fa, &fb) as f64, co(&a, &b));
+            if (sc - ws).abs() > 1e-4 { failures.push(format!("{}: distance.cosine_is_the_scalar_formula: {} vs {}", ctx, sc, ws)); }
+        } } }
         // different lengths: the common packed prefix
         for _ in 0..200 {
             cases += 1; nontrivial += 1;
